@@ -280,12 +280,7 @@ func (s *c09Session) feed(c *fw.Ctx, p []byte, r *fw.Rand) bool {
 		}
 		return m
 	}
-	cp := func() []byte {
-		if p == nil {
-			return nil
-		}
-		return append([]byte{}, p...)
-	}
+	cp := func() []byte { return fw.Exact(p) }
 	// interleaved predicate calls
 	if r == nil || r.Chance(1, 2) {
 		if pv, st := fw.Guard(func() {
